@@ -42,6 +42,8 @@ type recSink struct {
 	pre       []byte
 	broken    bool // a Write has failed
 	syncFail  bool // a Sync failed during the current call
+	dangling  bool // the log currently ends in a fragment without newline (after a partial write)
+	fused     bool // a later write was appended to such a fragment during the current call
 }
 
 func (s *recSink) fileSame() bool {
@@ -57,6 +59,9 @@ func (s *recSink) Write(p []byte) (int, error) {
 	defer s.mu.Unlock()
 	s.nWrite++
 	ev := sinkEvent{Kind: "write", Data: append([]byte{}, p...), FileSame: s.fileSame()}
+	if s.dangling && len(p) > 0 {
+		s.fused = true // these bytes land on the same line as the fragment
+	}
 	if s.nWrite == s.failWrite {
 		ev.Failed = true
 		s.broken = true
@@ -64,6 +69,9 @@ func (s *recSink) Write(p []byte) (int, error) {
 		if s.partial {
 			n = len(p) / 2
 			ev.Data = ev.Data[:n]
+			if n > 0 {
+				s.dangling = true
+			}
 		} else {
 			ev.Data = nil
 		}
@@ -71,6 +79,9 @@ func (s *recSink) Write(p []byte) (int, error) {
 		return n, errors.New("injected: audit device full")
 	}
 	s.events = append(s.events, ev)
+	if len(p) > 0 {
+		s.dangling = p[len(p)-1] != '\n'
+	}
 	return len(p), nil
 }
 
@@ -198,13 +209,14 @@ func runC06(t *testing.T, c AuditCase) (*h.Violation, h.Info) {
 		sink.pre = pre
 		sink.events = nil
 		sink.syncFail = false
+		sink.fused = false
 		sink.mu.Unlock()
 		shadow := tr.Clone()
 		want := shadow.Expect(caller.Rules, op, ver)
 		got := tgt.Do(caller, op, ver)
 		sink.mu.Lock()
 		events := sink.events
-		broken, syncFail := sink.broken, sink.syncFail
+		broken, syncFail, fused := sink.broken, sink.syncFail, sink.fused
 		sink.mu.Unlock()
 
 		// what must have been recorded
@@ -271,7 +283,10 @@ func runC06(t *testing.T, c AuditCase) (*h.Violation, h.Info) {
 				p.Hostname != caller.Host || p.IP != caller.IP || p.User != caller.User || strings.Join(p.Tags, ",") != strings.Join(caller.Tags, ",") {
 				return h.V("record-names-caller-action-secret-version-authorized", "step %d %s (version arg %d) by %+v: record %s; want action=%s secret=%q version=%d authorized=%v", i, op, ver, caller, written, wantAction, wantSecret, wantVer, allowed), info
 			}
-			recordOK = syncAfter
+			recordOK = syncAfter && !fused // appended to a torn fragment: no complete line of its own in the log
+			if fused {
+				info.Class("record-appended-to-a-torn-fragment")
+			}
 			if !syncAfter && !syncFail {
 				return h.V("record-synced", "step %d %s: record written but no successful Sync followed before the call returned (events %d)", i, op, len(events)), info
 			}
